@@ -496,7 +496,7 @@ def _large_cases(tier):
     return _s()
 
 
-@subcheck("C04", "large_search", _large_cases, 320, 3000,
+@subcheck("C04", "large_search", _large_cases, 450, 3000,
           doc="BeamSearch with ONE size at an implementation threshold: width (15/16/17 ... 257, 1025; thorough ... 2049), vocabulary "
               "(... 1025 | 2049), batch (... 257 | 1025) or max_iters (... 129, 257 | 1025); the HashLM table and the per-element "
               "conditions are expanded from generated seeds (pure function of the case). Same validity predicates on EVERY slot "
